@@ -109,9 +109,14 @@ class ClientBuilder:
         self.op(op="quiesce")
         self.op(op="resolve", how="ok")
         self.op(op="quiesce")
+        replies = {str(a["n"]): C.from_console(self.proto, 0x1F, C.error_info(a["n"], b"ER %d" % a["status"].get("err", 0)), pid=77)
+                   for a in inst["acs"] if a["status"].get("err", 0)}
         for f in answers(inst):
             self.op(op="feed", b=f)
             self.op(op="quiesce")
+            if replies:      # the console answers the error-information requests it is sent, whenever they come
+                self.op(op="answer_errinfo", replies=replies)
+                self.op(op="quiesce")
         if snapshot:
             self.op(op="snapshot", tag="after_init")
 
@@ -611,6 +616,10 @@ def stalled_report(b, inst, rng):
 def c10_script(seed, proto, combos=None, subscribers=False, raising=False):
     rng = random.Random(seed)
     inst = installation(proto, rng, n_acs=rng.randrange(1, 4), n_zones=rng.randrange(1, 7))
+    if rng.random() < 0.3:      # units already in an error state when the client initialises
+        for a in inst["acs"]:
+            if rng.random() < 0.6:
+                a["status"] = dict(a["status"], err=rng.choice([1, 5, 0xFFFE]))
     b = ClientBuilder(proto, rng)
     b.op(op="mark", tag="strict")
     b.preamble()
@@ -713,10 +722,15 @@ def c11_script(seed, proto, bitmap=None):
     b.op(op="mark", tag="strict")
     b.preamble()
     b.init(inst)
+    if rng.random() < 0.5:           # the units report any of their power states (AT5: away / sleep variants) before the calls
+        for a in inst["acs"]:
+            a["status"] = dict(ac_record(proto, a["n"], rng), err=0)
+        b.op(op="feed", b=status_frames(inst)[0], tag="ac_status")
+        b.op(op="quiesce")
     for tgt, meth, args, kw in command_calls(inst, rng, rng.randrange(25, 45)):
         b.call(tgt, meth, args, kw)
         b.op(op="quiesce")
-        if rng.random() < 0.1:       # the console reports new state (mode -> limits, timers, sensor)
+        if rng.random() < 0.15:      # the console reports new state (mode -> limits, timers, sensor)
             tag, fr = history_frame(inst, rng)
             b.op(op="feed", b=fr, tag=tag)
             b.op(op="quiesce")
@@ -747,7 +761,10 @@ def _to_at5(inst4):
 
 
 def _common_installation(rng):
-    inst = installation("at4", rng, n_acs=rng.randrange(1, 3), n_zones=rng.randrange(1, 5))
+    # small installations mostly; the largest both generations can describe (16 zones, up to 4 units) regularly
+    big = rng.random() < 0.25
+    inst = installation("at4", rng, n_acs=rng.randrange(1, 5) if big else rng.randrange(1, 3),
+                        n_zones=rng.choice([15, 16, 16]) if big else rng.randrange(1, 5))
     for a in inst["acs"]:
         a["fans"] &= 0x7F
         a["status"]["sp"] = 18 + rng.randrange(10)
@@ -843,3 +860,111 @@ def c19_pair(seed):
     for p in ("at4", "at5"):
         builders[p].shutdown()
     return builders["at4"].script, builders["at5"].script, {"seed": seed, "steps": steps}
+
+
+# ---------------------------------------------------------------------------------------------
+# C02 at the API level: which retry policy each public command really gets
+
+def c02_api_script(seed, proto):
+    """A write failure cuts off the frame of a public command (at its 1st, 2nd or 3rd write); the link
+    comes back.  The accumulating command (power toggle) must not be written again, any other command
+    must be (C02); a second failure may hit the re-send as well."""
+    rng = random.Random(seed)
+    inst = installation(proto, rng, n_acs=rng.randrange(1, 3), n_zones=rng.randrange(1, 4))
+    b = ClientBuilder(proto, rng)
+    b.preamble()
+    b.init(inst)
+    b.op(op="auto", how="ok")
+    for _ in range(rng.randrange(1, 4)):
+        a = rng.choice(inst["acs"])
+        tgt = f"ac:{a['n']}"
+        r = rng.random()
+        if r < 0.4:
+            call = (tgt, "set_power", [E("AcPowerControl", "TOGGLE")], None)
+        elif r < 0.55:
+            call = (tgt, "set_power", [E("AcPowerControl", rng.choice(["TURN_ON", "TURN_OFF"]))], None)
+        elif r < 0.7:
+            call = (tgt, "set_fan_speed", [E("AcFanSpeed", "AUTO")], None)
+        elif r < 0.85 and inst["zones"]:
+            z = rng.choice(inst["zones"])
+            call = (f"zone:{z['n']}", "set_damper_percentage", [5 * rng.randrange(21)], None)
+        else:
+            call = ("airtouch", "check_for_updates", [], None)
+        faults = rng.choice([1, 1, 2])
+        b.op(op="arm_fault", nth=rng.randrange(1, 4))
+        b.call(*call)
+        b.op(op="quiesce")
+        for _k in range(faults - 1):
+            b.op(op="arm_fault", nth=rng.randrange(1, 4))     # hits the re-send (or the refresh) on the next connection
+            b.op(op="quiesce")
+        b.op(op="advance", by=rng.choice([125, 2125, 4250]))
+        b.op(op="quiesce")
+        acf, zf = status_frames(inst)
+        b.op(op="feed", b=acf, tag="refresh_ac")
+        b.op(op="feed", b=zf, tag="refresh_zone")
+        b.op(op="quiesce")
+    b.shutdown()
+    return b.script, {"proto": proto, "seed": seed}
+
+
+# ---------------------------------------------------------------------------------------------
+# C08 with custom interval / timeout configurations: a bare HeartbeatManager on a real socket
+
+HB_CONFIGS = [(60000, 75000), (20000, 120000), (10000, 10000), (300000, 330000), (5000, 30125)]
+
+
+def c08_custom_script(seed, proto, interval, timeout):
+    """Monitoring with HeartbeatConfig(interval, timeout): answers prompt / late / never per beat, silence from
+    the first beat, after a response, after an earlier reset; stop() and a second start()."""
+    rng = random.Random(seed)
+    b = ClientBuilder(proto, rng)
+    b.preamble()
+    b.call("socket", "open_socket")
+    b.op(op="quiesce")
+    b.op(op="resolve", how="ok")
+    b.op(op="quiesce")
+    b.op(op="auto", how="ok")
+    b.call("heartbeat", "start")
+    b.op(op="quiesce")
+    t = 0
+    n_beats = rng.randrange(3, 8)
+    lat = [125, interval // 2, max(125, timeout - interval - 125), timeout - interval + 125, None, None]
+    pattern = [rng.choice(lat) for _ in range(n_beats)]
+    if rng.random() < 0.2:
+        pattern = [None] * n_beats
+    times = sorted(interval * k + d for k, d in enumerate(pattern) if d is not None and d >= 0)
+    for x in times:
+        if x <= t:
+            continue
+        t = x
+        b.op(op="advance", to=t)
+        b.op(op="feed", b=version_frame(proto, pid=rng.randrange(256)), tag="hb_response")
+        b.op(op="quiesce")
+    t = max(t, interval * n_beats) + rng.choice([0, timeout, 2 * timeout + 125])
+    b.op(op="advance", to=t)
+    b.op(op="quiesce")
+    if rng.random() < 0.4:      # stop, idle, start again: counted from the new start
+        b.call("heartbeat", "stop")
+        b.op(op="quiesce")
+        t += rng.choice([1000, timeout, 3 * interval])
+        b.op(op="advance", to=t)
+        b.call("heartbeat", "start")
+        b.op(op="quiesce")
+        for k in range(rng.randrange(1, 4)):
+            if rng.random() < 0.6:
+                b.op(op="advance", to=t + interval * k + 125)
+                b.op(op="feed", b=version_frame(proto, pid=rng.randrange(256)), tag="hb_response")
+                b.op(op="quiesce")
+        t += interval * 3 + rng.choice([0, timeout + 125])
+        b.op(op="advance", to=t)
+        b.op(op="quiesce")
+    b.call("heartbeat", "stop")
+    b.op(op="quiesce")
+    b.op(op="auto", how="")
+    b.call("socket", "close")
+    b.op(op="quiesce")
+    b.op(op="advance", by=10000)
+    b.op(op="residual")
+    opts = {"interval_ms": interval, "timeout_ms": timeout,
+            "hb_message": {"k": "ExtendedMessage", "sub_message": {"k": "ConsoleVersionRequest"}}}
+    return b.script, {"proto": proto, "seed": seed, "interval": interval, "timeout": timeout, "opts": opts}
